@@ -89,6 +89,26 @@ def bootstrap() -> dict:
     from . import clock as simclock
     patched = simclock.install()
 
+    # the database's own clock: server_default=func.now() is CURRENT_TIMESTAMP inside SQLite (C code, real time).
+    # Compile it to a user function that reads the simulated clock and register that function on every
+    # connection SQLAlchemy opens.
+    from sqlalchemy import event
+    from sqlalchemy.engine import Engine
+    from sqlalchemy.ext.compiler import compiles
+    from sqlalchemy.sql import functions as sa_functions
+
+    @compiles(sa_functions.now, "sqlite")
+    def _sqlite_now(element, compiler, **kw):  # noqa: ANN001
+        return "dsim_now()"
+
+    @event.listens_for(Engine, "connect")
+    def _register_now(dbapi_conn, record):  # noqa: ANN001
+        try:
+            dbapi_conn.create_function(
+                "dsim_now", 0, lambda: simclock.CLOCK.aware().strftime("%Y-%m-%d %H:%M:%S"))
+        except Exception:  # noqa: BLE001 - not a sqlite3 connection
+            pass
+
     # seeded randomness for everything that ends up in URLs, cookies and tokens
     for fn in ("token_bytes", "token_hex", "token_urlsafe", "choice", "randbelow"):
         setattr(secrets, fn, getattr(SECRETS, fn))
